@@ -441,6 +441,7 @@ type UnitSpec struct {
 	Modifies []string // heap classes; nil+ModAll => everything
 	Preserves []string // with no modifies clause: everything is havoced except these classes
 	FrameAssumed bool  // the preserves frame of a verified unit is trusted, not proved
+	External     bool  // declared in a package that is not part of this run: used at call sites only
 	ModSet   bool     // a modifies/pure line was given
 	Pure     bool
 	Loops    map[int]*LoopSpec
